@@ -16,7 +16,7 @@ if TYPE_CHECKING:
 
 __all__ = ["located_error"]
 
-suppress_attribute_error = suppress(AttributeError)
+suppress_exceptions = suppress(Exception)
 
 
 def located_error(
@@ -46,22 +46,24 @@ def located_error(
     except Exception:  # noqa: BLE001
         # The error cannot even be converted to a string.
         message = f"Unexpected error of type {original_error.__class__.__name__}."
+    # The original error may be of any class: reading one of its optional attributes
+    # may fail in any way, which just means that the attribute is not available.
     try:
         source = original_error.source  # type: ignore
         if not is_source(source):
             source = Source(source) if isinstance(source, str) else None
-    except AttributeError:
+    except Exception:  # noqa: BLE001
         source = None
     try:
         positions = original_error.positions  # type: ignore
-    except AttributeError:
+    except Exception:  # noqa: BLE001
         positions = None
 
-    with suppress_attribute_error:
+    with suppress_exceptions:
         nodes = original_error.nodes or nodes  # type: ignore
     try:
         return GraphQLError(message, nodes, source, positions, path, original_error)
-    except (AttributeError, TypeError):
+    except Exception:  # noqa: BLE001
         # The original error carries attributes named like those of a GraphQLError,
         # but with unrelated content; locate it by the given nodes only.
         return GraphQLError(message, original_nodes, None, None, path, original_error)
